@@ -9,6 +9,10 @@ CLAIMED = {
   text='Coq theorems (Props/C17.v) about an executable Gallina model of filter_rows, deduplicate and unpivot: filter = List.filter of the condition, equals/not_equals = any-of, dedup = first occurrence per key (subsequence, distinct keys, idempotent), unpivot = row-major flat_map with every cell conserved and field names partitioned; for all tables and configurations. Tied to the code on every run by correspondence (model evaluated by vm_compute against the real Flow on generated tables) plus a direct Python statement of the property on the real output.',
   note='Trusted: Coq kernel+vm_compute; harness printers/oracle; Python re decides field-name matches and back-reference substitution (given to the model as tables); py_eq models Python == on scalar keys (no floats); key_eq symmetry/transitivity are hypotheses of C17_dedup_first_occurrences.',
   technique='Coq proof over executable model + vm_compute correspondence + direct oracle', ref='5/C17'),
+ 'C10': dict(
+  text='Coq theorems (Props/C10.v) about the model of ResourceMatcher and of selective application: None selects all, a string selects exactly the names it fully matches (executable regex matcher), a list selects the listed names, an integer selects exactly one position (negative from the end, out of range rejected), unselected resources keep descriptor and rows; plus a regenerated theorem that every ResourceMatcher call site in the processors passes the package. Correspondence: the model\'s selection vector is compared by vm_compute with what each of the 21 selector-taking call sites actually selected on generated packages/selectors; direct oracle: selected resources equal the all-selected run, unselected equal the run without the step.',
+  note='Trusted: Coq kernel+vm_compute; Python re.fullmatch as the meaning of full match in the oracle (the Coq matcher is compared with it on every generated pattern); regex fragment without anchors/look-around/back-references; ast extraction of call-site arguments in gen_consts.py.',
+  technique='Coq proof over executable model + generated call-site constants + vm_compute correspondence + direct oracle', ref='5/C10'),
 }
 
 NOT_YET = 'check not built yet (work in progress; will be claimed once its Coq model, theorems and correspondence check exist)'
